@@ -4,11 +4,14 @@ Argument objects are module-level and shared between calls on purpose.
 Run as a script it executes ONE operation first thing in a fresh interpreter and prints the observation hash
 (the differential oracle's reference):  python -m checks.c15ops <opname>"""
 import contextlib
+import decimal
 import hashlib
 import io
 import os
 import re
+import shutil
 import sys
+import tempfile
 
 if __name__ == '__main__':
     _here = os.path.dirname(os.path.dirname(os.path.abspath(__file__)))
@@ -36,10 +39,11 @@ BYTES = b'\x00\xff\x81\x40'
 DARK = (10, 20, 30)
 LIGHT = (200, 210, 220, 128)
 CMAP = {'finder_dark': 'darkblue', 'data_light': (250, 250, 240), 'alignment_dark': '#336699', 'quiet_zone': None}
+CMAP2 = {'light': '#fff', 'quiet_zone': 'white', 'dark': '#000', 'finder_dark': 'black', 'data_dark': 'navy'}     # one colour in two notations
 MERGE_PARTS = ['AB', 'CD']
 LIST_ARG = ['ABC', '123', 'abc']
 SEQ_TEXT = 'ABCDEFGHIJKLMNOPQRSTUVWXYZ0123456789ABCDEFGHIJKLMNOPQRSTUVWXYZ'
-ARGS = {'LIST_ARG': LIST_ARG, 'MERGE_PARTS': MERGE_PARTS, 'PARTS': PARTS, 'KANJI': KANJI, 'BYTES': BYTES, 'DARK': DARK, 'LIGHT': LIGHT, 'CMAP': CMAP}
+ARGS = {'LIST_ARG': LIST_ARG, 'MERGE_PARTS': MERGE_PARTS, 'PARTS': PARTS, 'KANJI': KANJI, 'BYTES': BYTES, 'DARK': DARK, 'LIGHT': LIGHT, 'CMAP': CMAP, 'CMAP2': CMAP2}
 
 
 def canon_qr(q):
@@ -85,6 +89,17 @@ def _cli(argv):
         except SystemExit as e:
             rc = 'exit %r' % e.code
     return (rc, out.getvalue())
+
+
+def _cli_file(argv, ext, content):
+    d = tempfile.mkdtemp(prefix='verif-c15-')
+    try:
+        path = os.path.join(d, 'out.' + ext)
+        res = _cli(argv + ['--output', path, content])
+        data = open(path, 'rb').read() if os.path.exists(path) else None
+        return (res, data)
+    finally:
+        shutil.rmtree(d, ignore_errors=True)
 
 
 def _terminal(q, **kw):
@@ -188,6 +203,13 @@ OPS = {
     'helper_email': lambda: helpers.make_email(['a@b.c', 'd@e.f'], cc='c@c.c', subject='S & T', body='line1\r\nline2'),
     'helper_geo': lambda: helpers.make_geo(38.8976763, -77.0365297),
     'iter_verbose_reuse': lambda: _verbose_reuse(),
+    'helper_epc_tie': lambda: helpers.make_epc_qr('Name', 'DE33100205000001194700', decimal.Decimal('2.665'), text='tie'),
+    'helper_epc_tie_b': lambda: helpers.make_epc_qr('Name', 'DE33100205000001194700', decimal.Decimal('0.125'), text='tie'),
+    'save_svg_twins': lambda: _save(_shared(), 'svg', **CMAP2),
+    'save_ppm_twins': lambda: _save(_shared(), 'ppm', **CMAP2),
+    'save_png_twins': lambda: _save(_shared(), 'png', **CMAP2),
+    'cli_save_png': lambda: _cli_file(['--version', '2', '--scale', '3', '--dark', 'darkblue', '--light', '#eee'], 'png', 'CLI PNG'),
+    'cli_save_svg': lambda: _cli_file(['--version', '2', '--scale', '2.5', '--border', '1', '--dark', '#336699'], 'svg', 'CLI SVG'),
     'helper_vcard': lambda: helpers.make_vcard_data('Doe;John', 'John Doe', email=['a@b.c', 'd@e.f'], memo='a\nb'),
     'cli_terminal': lambda: _cli(['--version', '1', '--border', '0', 'CLI']),
     'ppm_small_a': lambda: _save(_small(), 'ppm', border=0, dark=DARK, finder_dark='red'),
